@@ -484,6 +484,74 @@ func c10(c *ctx) {
 			r.Check(ok, "R3/"+fnName(f)+"/height", c.p.Pos(x.Pos()), "TimeMachine("+p+")", fnName(f)+" opens the historical view at "+p+", which does not derive from its height parameter")
 		}
 	}
+	c10filters(c)
+}
+
+// c10filters (C10.R4): a reader at version v must not filter out blocks that contain version v.
+func c10filters(c *ctx) {
+	r := c.r
+	r.Rule("R4", "FLOW", "block-property filters admit the versions their caller reads: with the helper inlined, the exclusive upper bound handed to sstable.NewBlockIntervalFilter is (version+1) with lower bound 0 on the read path (newVersionedIterator), and (maxVersion+1) with lower bound minVersion on the rollback prune path", 2)
+	helper := c.fn("store.newTargetWindowFilter")
+	if helper == nil {
+		return
+	}
+	var lowP, highP string
+	n := 0
+	instrs(helper, func(in ssa.Instruction) {
+		if cc := callCommon(in); cc != nil && strings.HasSuffix(calleeName(cc), "sstable.NewBlockIntervalFilter") && len(cc.Args) >= 3 {
+			n++
+			lowP, highP = c.p.path(cc.Args[1]), c.p.path(cc.Args[2])
+		}
+	})
+	if n != 1 {
+		r.Unk("R4/helper", c.p.Pos(helper.Pos()), fmt.Sprintf("expected one NewBlockIntervalFilter call in newTargetWindowFilter, found %d", n))
+		return
+	}
+	subst := func(p string, args []string) string {
+		for i := len(args) - 1; i >= 0; i-- {
+			p = strings.ReplaceAll(p, fmt.Sprintf("$%d", i), "\x00"+fmt.Sprint(i)+"\x00")
+		}
+		for i, a := range args {
+			p = strings.ReplaceAll(p, "\x00"+fmt.Sprint(i)+"\x00", a)
+		}
+		return p
+	}
+	want := map[string][2]string{
+		"(*store.VersionedStore).newVersionedIterator": {"0", "($0.version + 1)"},
+		"(*store.Store).pruneVersionWindow":             {"$4", "($5 + 1)"},
+	}
+	seen := 0
+	for _, s := range c.p.callSitesOf(helper) {
+		if !inCanopy(s.Caller) || isTestFile(c.p, s.Site.Pos()) {
+			continue
+		}
+		seen++
+		var args []string
+		for _, a := range s.Site.Common().Args {
+			args = append(args, c.p.path(a))
+		}
+		lo, hi := subst(lowP, args), subst(highP, args)
+		enc := fnName(enclosing(s.Caller))
+		w, ok := want[enc]
+		if !ok {
+			r.Bad("R4/filter/"+enc, c.p.Pos(s.Site.Pos()), "a new block-property filter site ["+lo+", "+hi+") in "+enc+": decide which versions its caller reads and add it to the rule")
+			continue
+		}
+		r.Check(lo == w[0] && hi == w[1], "R4/filter/"+enc, c.p.Pos(s.Site.Pos()), "effective window ["+lo+", "+hi+")", enc+" filters sstable blocks with the window ["+lo+", "+hi+"), expected ["+w[0]+", "+w[1]+"): blocks whose lowest version is the reader's own version would be skipped and a committed height would read differently after a flush/compaction")
+	}
+	r.Check(seen >= 2, "R4/filter/sites", c.p.Pos(helper.Pos()), fmt.Sprintf("%d filter sites", seen), "fewer block-property filter sites than known (2)")
+	// the collector maps a key at version v to [v, v+1)
+	if mp := c.fnQuiet("store.(versionedCollector).MapPointKey"); mp != nil {
+		ok := false
+		instrs(mp, func(in ssa.Instruction) {
+			if fv, _, val := storeField(in); fv != nil && fv.Name() == "Upper" {
+				if p := c.p.path(val); strings.HasSuffix(p, " + 1)") && strings.Contains(p, "parseVersion(") {
+					ok = true
+				}
+			}
+		})
+		r.Check(ok, "R4/collector/interval", c.p.Pos(mp.Pos()), "key at version v is recorded as [v, v+1)", "the block-property collector no longer records a key at version v as the interval [v, v+1): filters and collector would disagree")
+	}
 }
 
 // C16 — Merkle proofs (two necessary conditions).
